@@ -84,24 +84,26 @@ type Exec struct {
 	varOrder []string
 	choices  map[string]int
 
-	res          *PathResult
-	obs          []Observation
-	crashIsViol  string
-	inInit       int
-	panicSite    string
-	abortSite    string
-	recovered    []string
-	stubs        map[string]bool
-	assumptions  map[string]bool
-	maxEnum      int
-	repoPrefix   string
-	unknownAsSat bool
-	mapOrder     bool // explore map iteration orders as environment choices
-	mapOrderMax  int
-	floatStrict  bool
-	uniq         int
-	wantWitness  bool
-	tier         int
+	res             *PathResult
+	obs             []Observation
+	crashIsViol     string
+	inInit          int
+	panicSite       string
+	abortSite       string
+	haltMsg         string
+	lastRecoverSite string
+	recovered       []string
+	stubs           map[string]bool
+	assumptions     map[string]bool
+	maxEnum         int
+	repoPrefix      string
+	unknownAsSat    bool
+	mapOrder        bool // explore map iteration orders as environment choices
+	mapOrderMax     int
+	floatStrict     bool
+	uniq            int
+	wantWitness     bool
+	tier            int
 }
 
 func (x *Exec) isRepoPkg(path string) bool {
